@@ -28,15 +28,15 @@ texts = {
  "C09": "For the same programs: .text must be byte-identical to the flat binary of the source without [FORMAT]; each defined GLOBAL name exactly once as class-2 symbol of section 1 whose value is the sentinel-located offset of its label; long names through the string table; defined symbols in address order, undefined last; the [FILE] name in the .file aux record.",
  "C10": "Operations are assemble(program, destination state) for 22 programs x {absent, longer leftover file, shorter leftover file} and re-assemble-the-same-parsed-tree x 3 (69 operations). Every history of length 1 and 2 from a fresh process (quick: pairs over 15 operations) and, in the thorough tier, every ordered triple as a window of a de Bruijn sequence run on live workers; after every operation the output and diagnostics must equal those of the program as the only operation of a fresh process, and digests of the process-global tables and of the parsed tree must be unchanged.",
  "C07": "Every mnemonic the grammar accepts with every operand list up to arity 1 (thorough: 2, and 3 over six kinds) over 15 operand kinds is embedded between sentinels; a statement accepted without any diagnostic must have emitted bytes, and bytes the reference decoder can read must denote the written mnemonic and operands; directives must refuse operands they cannot represent; an undefined symbol in each of 34 operand positions must be diagnosed; file prefixes x unparsable first lines must not make the rest of the file disappear.",
- "C13": "Exhaustive enumeration of short byte strings, token strings, single-token and line mutations and the mnemonic x operand space, each executed on the real pipeline in a worker whose death, recovered panic or missing answer is the failure; scaling families are measured at n = 10..10^4 (thorough 10^5) against a 200x-per-decade envelope.",
- "C11": "Every non-empty subset of the literal sites of six base programs (immediates, displacements, data items, RESB/ALIGNB/ORG operands, far-pointer parts, port numbers; values on both sides of encoding boundaries) is replaced by EQU names with chains of depth 1..4, three body forms and two placements; the output must be byte-identical to the inlined program. 4320 variants, exhaustive within those bounds.",
+ "C13": "Exhaustive enumeration of short byte strings, token strings, single-token and line mutations and the mnemonic x operand space, each executed on the real pipeline in a worker whose death, recovered panic or missing answer is the failure; all 21 952 EQU definition graphs over three names; 20 scaling families are measured at n = 10..10^4 (nesting families and the thorough tier: 10^5) against a 200x-per-decade envelope.",
+ "C11": "Every non-empty subset of the literal sites of ten base programs (immediates, displacements, data items, RESB/ALIGNB/ORG operands, far-pointer parts, port numbers; values on both sides of encoding boundaries) is replaced by EQU names with chains of depth 1..4, three body forms and two placements; the output must be byte-identical to the inlined program. 10 800 variants, exhaustive within those bounds.",
  "C12": "Every layout that differs from the canonical one in at most 1 (thorough: 2) places - alternative whitespace at any of the token gaps, one of ten comment/blank-line variants after any statement, four before the first, CRLF/CR line endings, missing final newline - over 25 base programs covering every statement kind; bytes and error class must equal the canonical layout's. The deviation bound completed is reported.",
- "C14": "out(A;B) = out(A)||out(B) for all ordered pairs of a 108-statement pool in both modes (thorough: plus all triples over a 20-statement sub-pool), and every single insertion/deletion in two 13-statement programs changes the output by exactly that statement's bytes.",
- "C15": "All injective assignments of up to three symbols into a 16-name adversarial pool (thorough) over eight programs, flat and WCOFF: flat output byte-identical to the neutral naming, COFF identical except the name fields/string table (read by an independent strict COFF reader).",
+ "C14": "out(A;B) = out(A)||out(B) for all ordered pairs of a 128-statement pool in both modes (pairs of memory forms, and in the thorough tier all pairs, run on fresh processes; references always on fresh processes) plus all triples over a 19-statement sub-pool, and every single insertion/deletion in two 13-statement programs changes the output by exactly that statement's bytes; a one-byte statement inserted at every position of three programs that switch between [BITS 16] and [BITS 32] changes the output by exactly that byte.",
+ "C15": "All injective assignments of up to three symbols into a 57-name adversarial pool (thorough; 22 quick: case twins, prefixes of each other, names containing or beginning with register names, mnemonics and reserved words) over nine programs, flat and WCOFF: flat output byte-identical to the neutral naming, COFF identical except the name fields/string table (read by an independent strict COFF reader).",
  "C06": "Every expression tree with up to 2 (thorough: 3) binary operators over a boundary literal set, in three renderings, is assembled through DD and compared with an arbitrary-precision reference evaluator; a reduced set is placed in every other operand position (DB/DW, immediates, displacements around a register term, RESB, EQU bodies and chains, ORG). Zero divisors must be diagnosed. Exhaustive within the stated bounds.",
  "C16": "For every program variant and every ordered pair of origins the second output must equal the first with the origin difference added at exactly the absolute fields (positions known from sentinels) and be identical elsewhere, including branch displacements and length; no ORG must equal ORG 0.",
- "C17": "All 27 directive assignments over three segments x 18 mode-sensitive instruction groups x 7 interleaved neutral statements: the output must equal the concatenation of the segments assembled alone under the mode in force; plus the directive at each of 6 prelude positions.",
- "C03": "Every statement kind of a 121-kind catalogue (one per size class) - and in the thorough tier every ordered pair - is placed in front of a label whose real address is located by a sentinel; seven kinds of use of the label and of $ are read back from the output and compared; pass-1 size vs emitted size is compared per kind. Label drift in longer programs is excused only when it equals the sum of the listed per-kind est/emit differences (defect model). Exhaustive within the catalogue and depth.",
+ "C17": "All 125 directive assignments (none, 16, 32, and a directive overridden at once by the next line) over three segments x 18 mode-sensitive instruction groups x 7 interleaved neutral statements: the output must equal the concatenation of the segments assembled alone under the mode in force; plus the directive at each of 6 prelude positions.",
+ "C03": "Every statement kind of a 151-kind catalogue (one per size class) - and in the thorough tier every ordered pair - is placed in front of a label whose real address is located by a sentinel; seven kinds of use of the label and of $ are read back from the output and compared; pass-1 size vs emitted size is compared per kind. Label drift in longer programs is excused only when it equals the sum of the listed per-kind est/emit differences (defect model). Exhaustive within the catalogue and depth.",
  "C04": "Each branch is decoded by the reference decoder at its sentinel-located position: the condition code must be the named one, address-of-next + displacement must equal the real target (label located by sentinel, or the literal number), no stray prefix, emitted length == pass-1 size. All 32 mnemonics x all gaps 0..140 forward and backward x label/numeric x 2 origins x 2 modes (thorough), plus +-32768 boundary gaps and far pointers.",
  "C02": "All 16-bit shapes and all 32-bit base x index x scale shapes (valid and invalid, incl. mixed register widths) x 14 boundary displacements x carrier instructions x widths x both modes are assembled by the real pipeline; the emitted prefix/ModRM/SIB/displacement is decoded by the reference decoder and the denoted address is compared, as a linear form modulo the address size, with the address written. Exhaustive within the stated alphabets.",
  "C18": "For every instruction of the stated space the emitted length is compared with the minimum over all valid encodings listed by an independent reference encoder (whose encodings are first verified to decode back). Exhaustive within the stated alphabets.",
